@@ -193,16 +193,17 @@ def check_case(case, workdir=None):
         pr.cleanup()
 
 
-def case_strategy():
-    return st.one_of(
+def strata():
+    return [
         gen_cfg.model_and_spec(force=['inout_mix']),
         gen_cfg.model_and_spec(want_mc=True, force=['out_many_formals']),
         gen_cfg.model_and_spec(force=['shared_itf', 'many_ports'], want_mixed=True),
         gen_cfg.model_and_spec(force=['global_enc', 'subint_reply', 'bool_reply']),
         gen_cfg.model_and_spec(force=['deep_ns', 'partial_spelling', 'nested_enum']),
         gen_cfg.model_and_spec(want_mc=True, force=['many_ports', 'system_enc']),
+        gen_cfg.model_and_spec(want_mc=True, force=['many_provides']),
         gen_cfg.model_and_spec(force=['ref_extern', 'prefix_ports', 'many_ports'], want_mixed=True),
-        gen_cfg.model_and_spec())
+        gen_cfg.model_and_spec()]
 
 
 def run(ctx):
@@ -212,10 +213,13 @@ def run(ctx):
         if ctx.replay.get('clause') == name:
             ctx._run_one(name, lambda c: check_case(c), ctx.replay['case'])  # pylint: disable=protected-access,unnecessary-lambda
         return
-    from vf.draw import draw_cases
+    from vf.draw import draw_stratified
     from vf.runner import case_hash, load_regress
-    cases = load_regress(ctx.prop, name) + draw_cases(case_strategy(), 24 if ctx.quick else 300,
-                                                      ctx.seed)
+    cases = load_regress(ctx.prop, name) + draw_stratified(strata(), 24 if ctx.quick else 300,
+                                                           ctx.seed)
+    if not ctx.quick:
+        for i, case in enumerate(cases):
+            case['asan'] = i % 2 == 0  # thorough: every second model under ASan+UBSan
     calls = {}
 
     def check(case, workdir):
